@@ -32,8 +32,10 @@ Step ==
           THEN Fail("C07.child_ran_after_trigger")
      ELSE CASE e.e = "b" /\ op = "open" ->
                  LET k == e.kind
-                     trig == k = "until_d" \/ (k = "until_f" /\ flg[e.f])
-                     tt == IF k = "until_d" THEN t + e.d ELSE t IN
+                     isdate == k = "until_c" /\ e.c[1] \in {"ge", "eq"}
+                     \* a date condition fires at its date, at once if it already holds, never if a moment has passed
+                     trig == k = "until_d" \/ (k = "until_f" /\ flg[e.f]) \/ (isdate /\ ~(e.c[1] = "eq" /\ t > e.c[2]))
+                     tt == IF k = "until_d" THEN t + e.d ELSE IF isdate /\ e.c[2] > t THEN e.c[2] ELSE t IN
                  /\ sco' = [sco EXCEPT ![e.s] = [owner |-> a, kind |-> k, f |-> F(e, "f", 0), open |-> TRUE,
                                                  trig |-> trig, tt |-> tt, exited |-> FALSE]]
                  /\ UNCHANGED <<flg, bad>>
